@@ -593,8 +593,12 @@ impl IndexTable {
 	}
 
 	pub fn drop_file(self) -> Result<()> {
+		// A table that was never written to has no file.
+		let has_file = self.map.read().is_some();
 		drop(self.map);
-		try_io!(std::fs::remove_file(self.path.as_path()));
+		if has_file {
+			try_io!(std::fs::remove_file(self.path.as_path()));
+		}
 		log::debug!(target: "parity-db", "{}: Dropped table", self.id);
 		Ok(())
 	}
